@@ -78,6 +78,9 @@ class Budget(BaseException):
     """Work budget exhausted (escapes every `except Exception` in the library)."""
 
 
+SPIN_BUDGET = 5000  # library-scheduled actions within one virtual instant (generated scenarios stay below a few hundred)
+
+
 # ------------------------------------------------------------------ values
 # JSON encoding of the value domain (tuples and nested containers need tags).
 
@@ -175,7 +178,14 @@ def _counting(base):
 
             def counted(sc, st=None):
                 if w is not None:
-                    self.lib_actions.append(w.now())
+                    t = w.now()
+                    if t == getattr(self, "_spin_t", None):
+                        self._spin_n += 1
+                        if self._spin_n > SPIN_BUDGET:
+                            raise Budget()  # a pipeline re-scheduling itself for ever within one virtual instant (advance_to has no anti-spin)
+                    else:
+                        self._spin_t, self._spin_n = t, 0
+                    self.lib_actions.append(t)
                 return action(sc, st)
 
             return super().schedule_absolute(duetime, counted, state)
